@@ -159,6 +159,10 @@ def restart_helper(ctx, lo, hi, max_files, timeout):
         ctx.nfail += 1
 
 
+# heavy scenarios: a data-dependent branch introduced into the step forks them; keep the exploration bound small
+no_hidden_state.max_paths = 4
+
+
 def main():
     chk = Check("C18", "restart continuity: no hidden state (two-copy symbolic coupled step, z3) + restart helper (CrossHair) + deterministic construction (concrete)",
                 functions=["UnboundedNavierStokesFlowSimulator2D/3D.time_step (with forcing)", "ImmersedBodyFlowInteraction / VirtualBoundaryForcing (coupled step)", "restart_simulation", "IO (C17)"],
